@@ -34,6 +34,9 @@ func (p *pathRun) newBig(t *smt.Term) *value {
 }
 
 func newBigC(c *big.Int) *value {
+	if c == nil {
+		return nil
+	}
 	var v value = bigval{c: new(big.Int).Set(c)}
 	return &v
 }
@@ -65,8 +68,9 @@ func (p *pathRun) setBig(fr *frame, recv value, b bigval) value {
 // cmpInt3 returns -1/0/1 as a Go int value (symbolic ite when needed).
 func (p *pathRun) cmp3(a, b *smt.Term) value {
 	c := p.ctx
+	p.pointEqLemma(a, b)
 	lt := c.Lt(a, b)
-	eq := c.Eq(a, b)
+	eq := p.smartEq(a, b)
 	if lt.IsConst() && eq.IsConst() {
 		switch {
 		case lt.IsTrue():
@@ -158,7 +162,7 @@ func init() {
 	})
 	B("Abs", func(fr *frame, a []value) value {
 		p := fr.i.p
-		return p.setBig(fr, a[0], p.mkBig(p.ctx.Abs(p.bigTerm(fr, a[1]))))
+		return p.setBig(fr, a[0], p.mkBig(p.absTerm(p.bigTerm(fr, a[1]))))
 	})
 	B("Set", func(fr *frame, a []value) value {
 		p := fr.i.p
